@@ -33,6 +33,14 @@ PAR = {2: [[(0.0, 1.0), (1.0, 0.0), (1.0, 1.0)], [(0.0, 2.0), (1.0, 1.0), (1.0, 
        3: [[(0.0, 1.0, 1.0), (1.0, 0.0, 1.0), (1.0, 1.0, 1.0)], [(0.0, 0.0, 2.0), (0.0, 1.0, 1.0), (1.0, 1.0, 1.0)]],
        1: [[(0.0,), (1.0,), (2.0,)]]}
 GRID = [-1.0, 0.0, 0.5, 1.0, 1.5, 2.0, 3.0]
+# other magnitudes, all exact in binary64 and pairwise separated beyond the archive's own tolerance
+# (|a - b| > 1e-10 + 1e-8 |b|): around 1e6 values 1..7 units apart, around 1e9 values >= 32 units apart
+# (closer ones are EQUAL for Fitness.__eq__ and outside C08's separation hypothesis), tiny values
+# 2^-27 .. 2^-31 (7.5e-9 .. 4.7e-10; below that any two values are equal within atol = 1e-10)
+MEGA = [2000000.0, 1999999.0, 1999998.0, 1999996.0, 1999993.0]
+GIGA = [1e9, 1e9 - 32.0, 1e9 - 64.0, 1e9 - 160.0]
+TINY = [2.0 ** -27, 2.0 ** -28, 2.0 ** -29, 2.0 ** -30, 2.0 ** -31]
+MAGNITUDES = {'mega': MEGA, 'giga': GIGA, 'tiny': TINY, 'mixed': [2000000.0, 1999999.0, 0.5, 2.0 ** -29, 2.0 ** -30, 1e9 - 32.0]}
 
 
 # ----------------------------------------------------------------------------------------
@@ -239,6 +247,19 @@ def configs(ctx):
     out.append((('hofsim', 'graph', 2), lex_noisy))      # compared with the model only (see Keeper.in_scope)
     if ctx.tier != 'quick':
         out.append((('hofsim', 'uid', 2), lex_noisy))
+    # other magnitudes (1e6, 1e9, 1e-9): the keeper's improvement test and the containers' comparisons
+    # must not depend on the scale of the metric
+    kind = lambda *v: dict(vals=tuple(v), gclass=0, gen=0)
+    out.append((('keeper', False, 1, 1, 0), [kind(MEGA[0]), kind(MEGA[1]), kind(MEGA[3])]))
+    out.append((('keeper', False, 1, 1, 0), [kind(TINY[1]), kind(TINY[3]), kind(TINY[2])]))
+    out.append((('keeper', False, 2, 1, 1), [kind(GIGA[0], TINY[0]), kind(GIGA[1], TINY[0]), kind(GIGA[1], TINY[2])]))
+    if ctx.tier != 'quick':
+        out.append((('keeper', True, 1, 1, 1), [kind(MEGA[1], TINY[2]), kind(MEGA[0], TINY[3]), kind(MEGA[0], TINY[2])]))
+        out.append((('hof', 2), [kind(GIGA[2]), kind(GIGA[1]), kind(0.5)]))
+        out.append((('keeper', False, 2, 1, 0), [kind(GIGA[0]), kind(GIGA[1]), kind(GIGA[3])]))
+        out.append((('keeper', False, 1, 2, 1), [kind(1.0, MEGA[0], TINY[1]), kind(1.0, MEGA[1], TINY[1]), kind(1.0, MEGA[1], TINY[2])]))
+        out.append((('pareto', 'same', 2), [kind(MEGA[0], TINY[3]), kind(MEGA[1], TINY[2]), kind(MEGA[1], TINY[3]), dict(vals=(MEGA[0], TINY[3]), gclass=1, gen=0)]))
+        out.append((('keepersim', 'graph', 1, 1, 1), [kind(GIGA[1], 1.0), kind(GIGA[0], 0.5), kind(GIGA[1], 0.5)]))
     for k in (1, 2):
         for nq, nc in ((1, 0), (1, 1), (2, 1)):
             alpha = LEX[nq + nc][(s + k) % len(LEX[nq + nc])]
@@ -263,6 +284,8 @@ def random_case(ctx):
     nobj = r.choice([1, 2, 3])
     npool = r.randint(2, 9)
     grid = r.sample(GRID, r.randint(2, 4))
+    if r.random() < 0.25:
+        grid = r.sample(MAGNITUDES[r.choice(sorted(MAGNITUDES))], r.randint(2, 4))     # another scale
     pool = []
     if style == 'antichain':
         # many mutually non-dominated vectors: the capacity of the front is reached
@@ -400,6 +423,49 @@ def invalid_cases():
     return out
 
 
+def magnitude_cases(ctx):
+    """keepers (and halls / fronts) fed one individual per update whose metric improves by the smallest
+    separated step at each magnitude, interleaved with updates that do not improve, repeats and empty
+    populations: every improving update must reset the stagnation counter, whatever the scale"""
+    r = ctx.rng
+    out = []
+    for name, vs in sorted(MAGNITUDES.items()):
+        desc = sorted(vs, reverse=True)                      # strictly improving (minimisation)
+        pool1 = [dict(uid=i + 1, vals=(v,), gclass=0, gen=0) for i, v in enumerate(desc)]
+        chain = [[i] for i in range(len(desc))]
+        for k in (1, 2, 3):
+            out.append({'target': ['keeper', False, k, 1, 0], 'pool': pool1, 'pops': chain})
+            out.append({'target': ['keeper', False, k, 1, 0], 'pool': pool1,
+                        'pops': [[0], [], [1], [0], [2, 1]] + [[i] for i in range(3, len(desc))] + [[]]})
+            out.append({'target': ['keeper', False, k, 1, 0], 'pool': pool1, 'pops': [[i] for i in reversed(range(len(desc)))]})
+            out.append({'target': ['hof', k], 'pool': pool1, 'pops': chain})
+        # two metrics: the first constant, the second improving at this magnitude, and the reverse
+        pool2 = [dict(uid=i + 1, vals=(1.0, v), gclass=0, gen=0) for i, v in enumerate(desc)]
+        pool3 = [dict(uid=i + 1, vals=(v, float(i)), gclass=0, gen=0) for i, v in enumerate(desc)]
+        for k in (1, 2):
+            out.append({'target': ['keeper', False, k, 1, 1], 'pool': pool2, 'pops': chain})
+            out.append({'target': ['keeper', True, k, 1, 1], 'pool': pool2, 'pops': chain})
+            out.append({'target': ['keeper', True, k, 1, 1], 'pool': pool3, 'pops': chain})     # an anti-chain: the front grows
+            out.append({'target': ['keepersim', 'graph', k, 1, 1], 'pool': pool2, 'pops': chain})
+        out.append({'target': ['pareto', 'uid', 2], 'pool': pool3, 'pops': chain})
+        # random walks over the magnitude
+        for _ in range(ctx.pick(6, 30)):
+            n = len(desc)
+            pops = [[r.randrange(n) for _ in range(r.choice([0, 1, 1, 1, 2]))] for _ in range(r.randint(3, 8))]
+            t = r.choice([('keeper', False, r.randint(1, 3), 1, 0), ('keeper', False, 1, 1, 1), ('keeper', True, 1, 1, 1)])
+            pool = pool1 if t[3] + t[4] == 1 else (pool2 if r.random() < 0.5 else pool3)
+            out.append({'target': list(t), 'pool': pool, 'pops': pops})
+    # single-metric keeper cases need single-valued pools
+    fixed = []
+    for c in out:
+        t = c['target']
+        nvals = len(c['pool'][0]['vals'])
+        if t[0] in ('keeper', 'keepersim') and t[-2] + t[-1] != nvals:
+            continue
+        fixed.append(c)
+    return fixed
+
+
 def zero_size_cases():
     """maxsize = 0 / None: update of an empty hall of fame with a non-empty population raises
     (outside the property's k >= 1; compared with the model only)"""
@@ -502,9 +568,11 @@ def judge(ctx, group, terms, metas, planted=0):
     Returns the list of (case, obs, agree, holds)."""
     n_real = len(metas)
     ctx.canaries += planted
+    groups = group if isinstance(group, list) else [group] * n_real
+    group = groups[0] if groups else 'none'
     # ~300 MB per coqc at 400 three-update cases; 16 run in parallel
     shard = min(400, max(200, -(-len(terms) // 16)))
-    res = coq_eval(ctx, group, FN, terms, 2, shard)
+    res = coq_eval(ctx, group if len(set(groups)) <= 1 else 'structured and random groups', FN, terms, 2, shard)
     for ag, ho in res[n_real:]:
         if (ag, ho) == (False, False):
             ctx.canaries_caught += 1
@@ -522,6 +590,7 @@ def judge(ctx, group, terms, metas, planted=0):
             pass
     out = []
     for idx, ((case, obs), (ag, ho)) in enumerate(zip(metas, res[:n_real])):
+        group = groups[idx]
         f = facts(case, obs)
         t = case['target']
         nupd = len(obs)
@@ -581,7 +650,9 @@ def run(ctx):
                 '2 hall-of-fame configurations with a user similarity (compared with the model only); quick: U2 P2; thorough: U2 P2, U3 P2 N3 (not for '
                 'the 4-kind _individuals_same fronts), U2 P3 N3 (hall of fame), U4 P1 N4; random: sequences of <= 30 updates over pools of <= 14 '
                 'individuals incl. anti-chains that fill the front; wide fronts: 3- and 4-objective fronts of 3..5 mutually non-dominated '
-                'permutation vectors, then newcomers (componentwise minima of 2-3 members) dominating non-adjacent members; invalid fitness: the 3-letter alphabet of the 1-objective hall-of-fame configurations has a 4th letter '
+                'permutation vectors, then newcomers (componentwise minima of 2-3 members) dominating non-adjacent members; magnitudes: alphabets around 1e6 (1..7 units apart), 1e9 (>= 32 units apart), 2^-27..2^-31 and mixed in 3 (thorough 9) '
+                'exhaustive configurations, strictly improving / interleaved / worsening one-individual chains per magnitude for keepers, halls and fronts, '
+                '25 % of the random pools at another scale; invalid fitness: the 3-letter alphabet of the 1-objective hall-of-fame configurations has a 4th letter '
                 '(null fitness), all 24 orders of {invalid, a, b, c} shown to an empty hall of fame, k 1..4, and 20 % invalid individuals in the random '
                 'hall-of-fame pools; evaluations = updates compared; distinct = distinct sequence; '
                 'non-trivial = >= 2 individuals shown and a tie, a repeat, more individuals than the capacity or >= 3 individuals')
@@ -631,25 +702,32 @@ def run(ctx):
         finally:
             if pending:
                 collect(*pending)
-    # ---- random longer sequences
-    n = ctx.budget(400, 4000)
-    cases = [random_case(ctx) for _ in range(n)]
-    res = evaluate(ctx, 'random sequences', cases)
-    ctx.set_exhaustive('random sequences', False)
-    for case, obs, ag, ho in res[:2]:
-        ctx.sample({'case': case, 'observed': obs, 'agree': ag, 'holds': ho})
-    # ---- wide fronts: >= 3 objectives, newcomers dominating non-adjacent members
-    cases = wide_front_cases(ctx, ctx.budget(1500, 6000), ctx.budget(400, 1500))
-    cases += [random_wide_case(ctx) for _ in range(ctx.budget(300, 3000))]
-    res = evaluate(ctx, 'wide fronts (3-4 objectives)', cases)
-    ctx.set_exhaustive('wide fronts (3-4 objectives)', False)
-    for case, obs, ag, ho in res[:1]:
-        ctx.sample({'case': case, 'observed': obs, 'agree': ag, 'holds': ho})
-    # ---- failed evaluations: invalid fitness at any position of a population
-    evaluate(ctx, 'invalid fitness (hall of fame)', invalid_cases())
-    ctx.set_exhaustive('invalid fitness (hall of fame)', True)
-    # ---- maxsize 0 (model only)
-    evaluate(ctx, 'maxsize 0', list(zero_size_cases()))
+    # ---- the structured and random groups, judged in one Coq batch
+    parts = [
+        ('random sequences', [random_case(ctx) for _ in range(ctx.budget(300, 4000))]),
+        # wide fronts: >= 3 objectives, newcomers dominating non-adjacent members
+        ('wide fronts (3-4 objectives)', wide_front_cases(ctx, ctx.budget(1000, 6000), ctx.budget(300, 1500)) +
+         [random_wide_case(ctx) for _ in range(ctx.budget(200, 3000))]),
+        # other magnitudes: improving chains around 1e6, 1e9, 1e-9 and mixed
+        ('magnitudes (1e6, 1e9, 1e-9)', magnitude_cases(ctx)),
+        # failed evaluations: invalid fitness at any position of a population
+        ('invalid fitness (hall of fame)', invalid_cases()),
+        # maxsize 0 (model only)
+        ('maxsize 0', list(zero_size_cases())),
+    ]
+    chunk = 12800
+    flat = [(g, c) for g, cs in parts for c in cs]
+    for i in range(0, len(flat), chunk):
+        piece = flat[i:i + chunk]
+        terms, metas, planted = observe([c for _, c in piece])
+        res = judge(ctx, [g for g, _ in piece], terms, metas, planted)
+        seen_groups = set()
+        for (g, _), (case, obs, ag, ho) in zip(piece, res):
+            if g not in seen_groups and g != 'maxsize 0':
+                seen_groups.add(g)
+                ctx.sample({'case': case, 'observed': obs, 'agree': ag, 'holds': ho})
+    for g, _ in parts:
+        ctx.set_exhaustive(g, g == 'invalid fitness (hall of fame)')
     # ---- minimise the first violation for the replay file
     if ctx.violations:
         v = ctx.violations[0]
